@@ -313,10 +313,14 @@ func numeric(symbols []pr.NamedString, value int) (string, bool) {
 		return symbol(symbols[0]), true
 	}
 	var reversedParts []string
-	value = utils.Abs(value)
 	L := len(symbols)
 	for value != 0 {
-		reversedParts = append(reversedParts, symbol(symbols[value%L]))
+		// the digits of |value|, computed without utils.Abs: math.MinInt has no absolute value
+		digit := value % L
+		if digit < 0 {
+			digit = -digit
+		}
+		reversedParts = append(reversedParts, symbol(symbols[digit]))
 		value /= L
 	}
 	reverse(reversedParts)
